@@ -12,7 +12,7 @@ ID = 'C20'
 LEVEL = 'exploration'
 RULE = ('case = (error kind in {404, 404 next to an existing wildcard route (doubled / trailing slashes, extra segment, other case), 405 (literal and wildcard route), 400 malformed chunked body, 400 undecodable path, 500 handler crash whose exception text is the payload, '
         'last-resort critical-error page (custom error handler that raises / unknown charset)}, payload placed in the path, the query string (also as the value of well-known keys such as callback / jsonp / format), Host, '
-        'X-Forwarded-Host and 16 other request headers (X-Request-ID, User-Agent, Referer, Cookie ...), Accept = HTML or application/json, debug off). Payloads are built from fragments: marker markup <zqx>, closing tags of the '
+        'X-Forwarded-Host and 16 other request headers (X-Request-ID, User-Agent, Referer, Cookie ...), Accept = HTML or application/json, debug off; optionally after 1-3 earlier requests for the same error on the same application with another Accept / a benign payload). Payloads are built from fragments: marker markup <zqx>, closing tags of the '
         'template, attribute breakers ("zqx"), percent-encoded and double-encoded markup (%3Czqx%3E, %253C..), pre-escaped entities, format-string '
         'syntax ({0}, {e.body}, {url}, %s), backslash escapes (\\\\x3c), quotes, NUL, non-ASCII, optionally padded to 300-5000 characters before or after the marker. Oracle for text/html bodies: the tag/attribute skeleton '
         'parsed with html.parser equals the skeleton of the same error kind for a benign request, and none of <zqx, zqx>, "zqx, zqx" occurs verbatim; '
@@ -162,6 +162,13 @@ def benign_skeleton(kind, accept):
 def check_case(ctx, case):
     kind, payload, where, accept = case['kind'], case['payload'], tuple(case['where']), case['accept']
     app = build_app(kind, payload)
+    # earlier clients of the same application: the same error asked for with another Accept, with a benign payload, or twice
+    for b_payload, b_accept in case.get('before') or ():
+        b_env, _ = make_request(kind, payload if b_payload == 'same' else b_payload, where, b_accept)
+        rb = call_app(app, b_env)
+        if rb.escaped is not None:
+            raise CheckFailure(f'{kind}: exception escaped from an earlier request: {fmt_exc(rb.escaped)}')
+        ctx.count('earlier_request_on_the_same_application')
     env, want_code = make_request(kind, payload, where, accept)
     r = call_app(app, env)
     if r.escaped is not None:
@@ -217,6 +224,8 @@ CASE = st.fixed_dictionaries({
                                st.sampled_from(OTHER_HEADERS).map(lambda h: 'hdr:' + h), st.sampled_from(QUERY_KEYS).map(lambda k: 'qkey:' + k)),
                       min_size=1, max_size=4, unique=True).map(sorted),
     'accept': st.sampled_from([None, None, 'text/html', 'application/json', '*/*']),
+    'before': st.one_of(st.just([]), st.just([]), st.lists(st.tuples(st.sampled_from(['same', 'same', 'benign', '<zqx>']),
+                                                                      st.sampled_from([None, 'text/html', 'application/json', '*/*'])).map(list), min_size=1, max_size=3)),
 })
 
 
@@ -237,6 +246,13 @@ def run(ctx):
                 for carrier in ['hdr:' + h for h in OTHER_HEADERS] + ['qkey:' + k for k in QUERY_KEYS]:
                     for accept in (None, 'application/json'):
                         ctx.guarded(check_case, {'kind': kind, 'payload': p, 'where': [carrier], 'accept': accept})
+        # the same error served to an earlier client with every other Accept (HTML first then JSON, JSON first then HTML, twice the same)
+        for kind in KINDS:
+            for p in ['<zqx>', 'plain', '%3Czqx%3E"zqx"']:
+                for first in (None, 'text/html', 'application/json', '*/*'):
+                    for second in (None, 'text/html', 'application/json'):
+                        for bp in ('same', 'benign'):
+                            ctx.guarded(check_case, {'kind': kind, 'payload': p, 'where': ['path', 'query'], 'accept': second, 'before': [[bp, first]]})
         ctx.count('payload_grid')
     n = 3000 if ctx.tier == 'quick' else 30000
     ctx.hyp(CASE, check_case, n)
